@@ -10,23 +10,23 @@ import (
 
 // FileFacts are the facts the AST monitor extracts from one emitted file.
 type FileFacts struct {
-	Path        string
-	ParseErr    string
-	Lines       []string // first lines verbatim (up to the package clause)
-	HeaderOK    bool     // line 1 is the "Code generated ... DO NOT EDIT." comment
-	Constraint  string   // text after //go:build on line 2, "" if absent
-	HasConstr   bool
+	Path               string
+	ParseErr           string
+	Lines              []string // first lines verbatim (up to the package clause)
+	HeaderOK           bool     // line 1 is the "Code generated ... DO NOT EDIT." comment
+	Constraint         string   // text after //go:build on line 2, "" if absent
+	HasConstr          bool
 	BlankBeforePackage bool
-	Package     string
-	Imports     map[string]string // path -> alias ("" if none)
-	Types       map[string]string // name -> kind (struct{} | struct | other)
-	Funcs       []string          // top-level function names
-	Methods     map[string][]string // receiver type -> method names
-	Vars        []string
-	Consts      []string
-	InitAssigns []string // qualified or plain identifiers assigned inside init()
-	InitCount   int
-	UsesIdent   map[string]bool // selector package identifiers used
+	Package            string
+	Imports            map[string]string   // path -> alias ("" if none)
+	Types              map[string]string   // name -> kind (struct{} | struct | other)
+	Funcs              []string            // top-level function names
+	Methods            map[string][]string // receiver type -> method names
+	Vars               []string
+	Consts             []string
+	InitAssigns        []string // qualified or plain identifiers assigned inside init()
+	InitCount          int
+	UsesIdent          map[string]bool // selector package identifiers used
 }
 
 // Analyze parses an emitted Go file.
